@@ -10,7 +10,9 @@ implementation.  Search: the five equivalences of the property executed on the i
 Round 3 families: HISTORIES (one estimator object fitted several times with set_params / new data in
 between; each stage is checked like an independent case - justified by C05_refit_is_fresh_fit of the
 object model coq/Model/KPCovRState.v - and against a fresh estimator; NotFittedError / AttributeError
-probes) and GUARDS (rejection branches of fit / check_krr_fit against coq/Model/KPCovRGuard.v)."""
+probes), GUARDS (rejection branches of fit / check_krr_fit against coq/Model/KPCovRGuard.v) and
+PRESENTATIONS (training X / new samples as int64, int32, float32, nested lists, Fortran-ordered or
+strided arrays: same values, so same model, same reference routes, same float64 answer)."""
 import collections
 import re
 
@@ -102,6 +104,19 @@ def run(ctx):
         premsgs.append(H.oracle(c, r, est, info))
         origin.append(None)
         account(c, r, info)
+    # presentations: the same values as int64 / int32 / float32 / lists / Fortran / strided arrays
+    npres = 140 if ctx.quick else 900
+    st["presentations"] = collections.Counter()
+    for _ in range(npres):
+        c = H.gen_present_case(ctx.rng, ctx.quick)
+        r, info, msgs = H.run_present(c)
+        cases.append(c)
+        recs.append(r)
+        infos.append(info)
+        premsgs.append(msgs)
+        origin.append(None)
+        account(c, r, info)
+        st["presentations"]["train=%s new=%s" % (c["present"]["train"], c["present"]["new"])] += 1
     hists = []
     for hi in range(nhist):
         h = H.gen_history(ctx.rng, ctx.quick)
@@ -292,9 +307,12 @@ def replay(ctx, obj):
         msgs = out[min(c.get("stage", len(out) - 1), len(out) - 1)][2] if out else []
         print("replay: one estimator object, %d fits (%s)" % (len(out), " -> ".join(c["history"]["kinds"])))
     else:
-        r, est = H.run_impl(c)
-        info = H.mirror(c, r) if "error" not in r else None
-        msgs = H.oracle(c, r, est, info)
+        if c.get("present"):
+            r, info, msgs = H.run_present(c)
+        else:
+            r, est = H.run_impl(c)
+            info = H.mirror(c, r) if "error" not in r else None
+            msgs = H.oracle(c, r, est, info)
     for key, msg in msgs:
         print("replay: [%s] %s" % (key, msg))
     if not msgs:
